@@ -152,6 +152,11 @@ type Scenario struct {
 	// re-runs of one vector must still agree on choice points and failure signatures, but may differ in
 	// state keys and outcome class.
 	Nondet bool
+	// FreeRunning: the scenario lets several goroutines of the code under test run on the Go scheduler, which
+	// the harness does not own. An oracle failure observed in ANY run of a vector is a real observation on
+	// the real code and is reported as a violation even if a re-run of the same vector passes (the replay
+	// file then documents the vector, not a schedule).
+	FreeRunning bool
 }
 
 // Suite is one check: a property, a list of scenarios, one evidence file.
@@ -852,6 +857,15 @@ func (s *Suite) explore(sc *Scenario, tier string, seed int64, deadline time.Tim
 					}
 					if d := sameObservation(res, last, sc.Nondet); d != "" {
 						unstable = true
+						if sc.FreeRunning {
+							// schedule-dependent by construction: whichever run failed is the observation
+							if !bad && (len(last.Fails) > 0 || last.Crash != "") {
+								res, bad = last, true
+							}
+							last = res
+							unstable = false
+							break
+						}
 						if !bad {
 							// a passing execution that is not reproducible is a harness defect
 							last.Harness = "nondeterministic execution (prefix " + vecKey(vec) + "): " + d
